@@ -269,8 +269,9 @@ def run(tier, seed):
         if len(acc) == L:
             return
         for e in g.edges.get(node, []):
-            if not thorough and e[0] in ('Start', 'Enter') and e[1][-1] != 'd':
-                continue        # quick: explicit access modes come with the edge cover (a) and the random schedules (c)
+            if e[0] in ('Start', 'Enter') and e[1][-1] != 'd' and (not thorough or len(acc) >= 3):
+                continue        # quick: explicit access modes come with the edge cover (a) and the random schedules (c);
+                #                 thorough: in the first three steps of the enumeration as well
             acc.append(e)
             rec(e[2], acc)
             acc.pop()
